@@ -27,6 +27,7 @@
   counts work-loop iterations exactly like the `verif` hook counter in the Rust code.
 -/
 import Parsley.Base.Basic
+import Parsley.Model.PdfDate
 namespace Parsley.TC
 open Parsley
 
@@ -91,11 +92,66 @@ def EK.toString : EK → String
   | .valueMismatch => "valuemismatch" | .predicate => "predicate"
   | .unknownTypeCheck => "unknowntypecheck"
 
+/-! ### the predicates of the shipped specifications (added for C10; add-only)
+  `NameTreePredicate` (name_tree.rs:26-118), `NumberTreePredicate` (number_tree.rs:26-118) and
+  `DateStringPredicate` (common_data_structures.rs:302-327).  The two tree predicates have the same text up to
+  the type of the keys (string / integer) and the dictionary keys they read: the leaf array is read from
+  `leafKey`, the final "exactly one of the permitted key combinations" test looks at `comboKey`.
+  NumberTreePredicate at the pinned commit reads the leaf array from /Names and tests /Nums in the combination
+  (DESIGN section 4 #24); the `numTree` constructor therefore carries the leaf key it reads. -/
+
+def kNames : Bytes := [0x4E, 0x61, 0x6D, 0x65, 0x73]
+def kNums : Bytes := [0x4E, 0x75, 0x6D, 0x73]
+def kLimits : Bytes := [0x4C, 0x69, 0x6D, 0x69, 0x74, 0x73]
+def kKids : Bytes := [0x4B, 0x69, 0x64, 0x73]
+
+def Obj.isStr : Obj → Bool
+  | .str _ => true
+  | _ => false
+
+def Obj.isInt : Obj → Bool
+  | .int _ => true
+  | _ => false
+
+/-- the loop `for c in (0..len).step_by(2)`: key at `c`, reference at `c + 1` (the length is even) -/
+def altPairs (isKey : Obj → Bool) : List Obj → Bool
+  | a :: b :: t => isKey a && b.isRef && altPairs isKey t
+  | [] => true
+  | [_] => false
+
+/-- the body shared by `NameTreePredicate::check` and `NumberTreePredicate::check`; values are inspected as
+    they stand (`a.val()`): a reference is not followed -/
+def treePredOK (leafKey comboKey : Bytes) (isKey : Obj → Bool) : Obj → Bool
+  | .dict kvs =>
+    (match kvs.get leafKey with
+     | some (.arr xs) => if xs.vals.length % 2 = 0 then altPairs isKey xs.vals else false
+     | some _ => false
+     | none => true) &&
+    (match kvs.get kLimits with
+     | some (.arr xs) => xs.vals.all isKey && decide (xs.vals.length = 2)
+     | _ => true) &&
+    (match kvs.get kKids with
+     | some (.arr xs) => xs.vals.all Obj.isRef
+     | some _ => false
+     | none => true) &&
+    (let n := (kvs.get comboKey).isSome
+     let l := (kvs.get kLimits).isSome
+     let k := (kvs.get kKids).isSome
+     (n && l && !k) || (!n && l && k) || (!n && !l && k) || (n && !l && !k))
+  | _ => false
+
 inductive Pred where
   | choice (vals : List Obj)   -- ChoicePred
   | refArray                   -- ReferencePredicate (an array all of whose elements are references)
   | never
   | always
+  | nameTree                   -- NameTreePredicate (C10)
+  | numTree (leafKey : Bytes)  -- NumberTreePredicate reading its leaf array from `leafKey` (C10)
+  | date                       -- DateStringPredicate (C10)
+  /-- (C10) the same predicate as a DISTINCT object: the memo compares predicates by the address of the
+      `Rc<dyn Predicate>`, so two separately built predicates with the same text are different memo keys;
+      the extraction of the shipped specification numbers the predicate objects -/
+  | tagged (id : Nat) (p : Pred)
 deriving DecidableEq, Repr
 
 def Pred.eval : Pred → Obj → Bool
@@ -104,10 +160,16 @@ def Pred.eval : Pred → Obj → Bool
   | .refArray, _ => false
   | .never, _ => false
   | .always, _ => true
+  | .nameTree, o => treePredOK kNames kNames Obj.isStr o
+  | .numTree leafKey, o => treePredOK leafKey kNums Obj.isInt o
+  | .date, .str s => PdfDate.dateOK s
+  | .date, _ => false
+  | .tagged _ p, o => p.eval o
 
 /-- the error kind the predicate's `check` produces -/
 def Pred.ek : Pred → EK
   | .choice _ => .valueMismatch
+  | .tagged _ p => p.ek
   | _ => .predicate
 
 /-- `check_predicate` -/
